@@ -80,16 +80,24 @@ func chainUp(c *Ctx, r *Rep, label string, fn *ssa.Function, seen map[*ssa.Funct
 	}
 }
 
+// writePrimitives: library calls through which file content reaches the disk (or fails to).
+var writePrimitives = []string{"os.WriteFile", "os.OpenFile", "os.Create", "(*os.File).Write", "(*os.File).WriteString", "(*os.File).Sync"}
+
 func ruleChainWrite(c *Ctx, r *Rep) {
-	srcs := c.funcsCalling("os.WriteFile")
+	srcs := map[*ssa.Function][]ssa.CallInstruction{}
+	for _, prim := range writePrimitives {
+		for fn, cis := range c.funcsCalling(prim) {
+			srcs[fn] = append(srcs[fn], cis...)
+		}
+	}
 	if len(srcs) == 0 {
-		r.Undecided("anchor:os.WriteFile", "", "no module function calls os.WriteFile")
+		r.Undecided("anchor:write-primitive", "", "no module function calls os.WriteFile or writes through an *os.File")
 		return
 	}
 	for _, fn := range sortedFuncs(c, keysOfFuncMap(srcs)) {
 		for _, ci := range srcs[fn] {
 			ev, _ := errValueOf(ci)
-			key := "source|os.WriteFile|" + c.FuncKey(fn)
+			key := "source|" + calleeFullName(ci) + "|" + c.FuncKey(fn)
 			if ev == nil {
 				r.Bad(key, c.Pos(ci.Pos()), "the write error is returned", "discarded")
 				continue
@@ -305,6 +313,22 @@ func ruleChainOpen(c *Ctx, r *Rep) {
 	if cb == nil {
 		r.Undecided("anchor:walk-callback", "", "no closure handed to fs.WalkDir")
 		return
+	}
+	// the walk visits everything: the callback (and closures or module helpers whose result it returns) never answers
+	// with one of the walk-control sentinels, which would skip the rest of a directory or of the tree
+	{
+		pv := c.newProv()
+		var sentinels []string
+		for _, ret := range returnsOf(cb) {
+			for _, res := range retResults(ret) {
+				for _, o := range pv.Origins(res) {
+					if strings.Contains(o, "G(io/fs.Skip") || strings.Contains(o, "G(path/filepath.Skip") {
+						sentinels = append(sentinels, c.Pos(ret.Pos())+": "+o)
+					}
+				}
+			}
+		}
+		r.Check(len(sentinels) == 0, "walk-visits-everything|"+c.FuncKey(walker), c.FnPos(cb), "the walk callback returns nil or an error, never SkipDir/SkipAll: configurations are found in whatever sub-directory, next to whatever other files", strings.Join(sentinels, "; "))
 	}
 	// the importer: the module method the callback calls with a CertificateContent argument
 	var importer *ssa.Function
@@ -757,6 +781,35 @@ func ruleOidValid(c *Ctx, r *Rep) {
 								after = true
 							}
 						}
+					}
+					if !after && okp {
+						// the check sits in a helper that hands the value back: every caller returns the helper's error
+						// before it appends the value
+						sites, good := 0, 0
+						for _, caller := range c.Funcs {
+							for _, cj := range callsIn(caller) {
+								if cj.Common().StaticCallee() != fn {
+									continue
+								}
+								sites++
+								ev2, _ := errValueOf(cj)
+								if ev2 == nil {
+									continue
+								}
+								ok2, _ := propagates(c, ev2, cj)
+								appended := false
+								for _, ci2 := range callsIn(caller) {
+									if bi, isB := ci2.Common().Value.(*ssa.Builtin); isB && bi.Name() == "append" && canReachInstr(cj, ci2) {
+										appended = true
+									}
+								}
+								if ok2 && appended {
+									good++
+								}
+							}
+						}
+						after = sites > 0 && good == sites
+						how += sprintf("; through %d call site(s) of the helper", sites)
 					}
 					found = true
 					r.Check(okp && after, "parser-validates|"+c.FuncKey(fn), c.Pos(ci.Pos()), "the parser rejects a custom extension whose "+field.Name()+" the validator refuses, before it is added to the list", how)
